@@ -273,6 +273,12 @@ impl StateTab {
 /// `max_layers` or the fix-point.  `pair_cap` bounds the number of binary transitions of the
 /// layers after the first (a capped layer is reported as such).
 pub fn search(ctx: &Ctx, mode: Mode, name: &str, init: Vec<Bm>, max_layers: usize, total: &mut Part) -> Value {
+  search_opt(ctx, mode, name, init, max_layers, false, total)
+}
+
+/// `initial_partner_only`: in the layers after the first, a new state is paired (both orders) with the
+/// initial states only (operator sequences whose other operand is always an initial value).
+pub fn search_opt(ctx: &Ctx, mode: Mode, name: &str, init: Vec<Bm>, max_layers: usize, initial_partner_only: bool, total: &mut Part) -> Value {
   let mut tab = StateTab::new();
   for s in init {
     tab.add(s);
@@ -318,7 +324,8 @@ pub fn search(ctx: &Ctx, mode: Mode, name: &str, init: Vec<Bm>, max_layers: usiz
       p.transitions += 1;
       record(r, &mut p);
       // pairs (i, k) and (k, i) for all k < hi; pairs among new states are visited once from each side
-      for k in 0..hi {
+      let k_hi = if initial_partner_only && layers_done > 0 { n0 } else { hi };
+      for k in 0..k_hi {
         let (b, bi, bmm) = (&tabref.bms[k], &tabref.impls[k], &tabref.maps[k]);
         for &op in &BIN_OPS {
           let r = transition(mode, op, a, ai, am, Some((b, bi, bmm)), &mut p);
@@ -368,7 +375,7 @@ pub fn search(ctx: &Ctx, mode: Mode, name: &str, init: Vec<Bm>, max_layers: usiz
       total.sample(json!({"search": name, "state": tab.bms[k].describe()}));
     }
   }
-  json!({"search": name, "initial_states": n0, "states": tab.bms.len(), "layers": layer_info, "fixpoint_reached": fixpoint})
+  json!({"search": name, "initial_states": n0, "states": tab.bms.len(), "layers": layer_info, "fixpoint_reached": fixpoint, "later_layers_pair_with_initial_states_only": initial_partner_only})
 }
 
 pub fn specs(mode: Mode, quick: bool) -> Vec<(UniverseSpec, usize)> {
